@@ -22,7 +22,7 @@ Implementation: Multi-language analysis with config-driven filtering and min_ope
 from fnmatch import fnmatch
 
 from src.core.base import BaseLintContext, MultiLanguageLintRule
-from src.core.linter_utils import load_linter_config
+from src.core.linter_utils import load_linter_config, path_in_project
 from src.core.types import Violation
 
 from .config import CQSConfig
@@ -91,7 +91,7 @@ class CQSRule(MultiLanguageLintRule):
         """
         file_path = str(context.file_path) if context.file_path else "unknown"
 
-        if self._matches_ignore_pattern(file_path, config):
+        if self._matches_ignore_pattern(path_in_project(context), config):
             return []
 
         patterns = self._python_analyzer.analyze(context.file_content or "", file_path, config)
@@ -109,7 +109,7 @@ class CQSRule(MultiLanguageLintRule):
         """
         file_path = str(context.file_path) if context.file_path else "unknown"
 
-        if self._matches_ignore_pattern(file_path, config):
+        if self._matches_ignore_pattern(path_in_project(context), config):
             return []
 
         patterns = self._typescript_analyzer.analyze(context.file_content or "", file_path, config)
@@ -134,13 +134,18 @@ class CQSRule(MultiLanguageLintRule):
         """Check if file path matches any ignore pattern.
 
         Args:
-            file_path: Path to check
+            file_path: Path to check, as seen from the project root (with a leading slash)
             config: CQS configuration
 
         Returns:
             True if path matches an ignore pattern
         """
-        return any(fnmatch(file_path, pattern) for pattern in config.ignore_patterns)
+        spellings = (file_path, file_path.lstrip("/"))
+        return any(
+            fnmatch(spelling, pattern)
+            for pattern in config.ignore_patterns
+            for spelling in spellings
+        )
 
     def _is_violation(self, pattern: CQSPattern, config: CQSConfig) -> bool:
         """Check if pattern represents a violation based on config.
